@@ -139,6 +139,16 @@ func labelsKey(m map[string]string) string {
 	return b.String()
 }
 
+// vsHasLongLine: a line of 64 KiB or more (bufio.Scanner's documented default limit) need not be accepted.
+func vsHasLongLine(text string) bool {
+	for _, l := range vsSplitLines(text) {
+		if len(l) >= 65000 {
+			return true
+		}
+	}
+	return false
+}
+
 // vsParseFile returns the records of one uploaded part, or collide=true if a
 // file label collides with a name-derived label (such an upload must fail).
 func vsParseFile(text string, server map[string]string) (recs []*vsRecord, collide bool) {
@@ -350,6 +360,7 @@ type vsGenOpts struct {
 	manyLabels bool // crosses the insert batch
 	collide    bool // allow file labels that collide with name labels (upload must fail)
 	noBench    bool // produce a file without benchmark lines
+	longLine   bool // one line longer than any line buffer, after the first benchmark line
 }
 
 // vsGenFile generates the text of one uploaded file.
@@ -363,6 +374,8 @@ func vsGenFile(T *sim.Tape, o vsGenOpts) string {
 	name := vsGenName(T)
 	nbench := 0
 	extra := 0
+	var benchLines []string
+	longDone := false
 	if o.wide {
 		nk := 245 + T.Intn(30, "wide-n")
 		for i := 0; i < nk; i++ {
@@ -386,7 +399,8 @@ func vsGenFile(T *sim.Tape, o vsGenOpts) string {
 		case k == 4:
 			switch T.Intn(8, "odd") {
 			case 0:
-				fmt.Fprintf(&b, "%s: sneaky\n", sim.Pick(T, vsServerKeys, "serverkey")) // must be ignored
+				// must be ignored, whether it tries to change or to remove a label the server adds
+				fmt.Fprintf(&b, "%s:%s\n", sim.Pick(T, vsServerKeys, "serverkey"), []string{" sneaky", "", " "}[T.Intn(3, "serverkey-how")])
 			case 1:
 				b.WriteString("\n")
 			case 2:
@@ -409,11 +423,30 @@ func vsGenFile(T *sim.Tape, o vsGenOpts) string {
 				b.WriteString("just text\n")
 				continue
 			}
+			if len(benchLines) > 0 && T.Intn(6, "repeat-line") == 0 {
+				// the same benchmark line again: a stored record of its own unless it directly follows its twin under the same labels
+				b.WriteString(benchLines[T.Intn(len(benchLines), "which-line")])
+				nbench++
+				continue
+			}
 			if T.Intn(3, "newname") == 0 {
 				name = vsGenName(T)
 			}
-			fmt.Fprintf(&b, "Benchmark%s%s%d\t%d ns/op\n", name, []string{" ", "\t", "  "}[T.Intn(3, "bsep")], 1+T.Intn(1000, "iters"), 1+T.Intn(100000, "ns"))
+			bl := fmt.Sprintf("Benchmark%s%s%d\t%d ns/op\n", name, []string{" ", "\t", "  "}[T.Intn(3, "bsep")], 1+T.Intn(1000, "iters"), 1+T.Intn(100000, "ns"))
+			b.WriteString(bl)
+			benchLines = append(benchLines, bl)
 			nbench++
+			if o.longLine && !longDone {
+				longDone = true
+				switch T.Intn(3, "longline-kind") {
+				case 0:
+					b.WriteString("note: " + strings.Repeat("v", 70000) + "\n")
+				case 1:
+					b.WriteString(strings.Repeat("x", 70000) + "\n")
+				default:
+					fmt.Fprintf(&b, "Benchmark%s 1 1 ns/op\n", strings.Repeat("L", 70000))
+				}
+			}
 		}
 	}
 	if nbench == 0 && !o.noBench {
